@@ -31,7 +31,7 @@ def graph(form, K=1, fix=None):
         if form in ('short', 'all'):
             doc += 'Ref r1: ' + O + '.' + cn + ' > ' + U + '.id\n'
         if form in ('block', 'all'):
-            doc += 'Ref {\n  ' + O + '.(id, ' + cn + ') - ' + P + '.(id, uid)\n}\n'
+            doc += 'Ref {\n  ' + O + '.(' + cn + ', id) - ' + P + '.(id, uid)\n}\n'      # left side not in declaration order
         doc += 'TableGroup g {\n  ' + U_ADDR[a['g_u']] + '\n  ' + O + '\n  Note: \'gn\'\n}\nNote sn {\n  \'x\'\n}\nProject p {\n  Note: \'pn\'\n}\n'
         return doc, cn
 
@@ -89,7 +89,7 @@ def graph(form, K=1, fix=None):
         if form in ('short', 'all'):
             expect.append(('>', [oc], [tu.columns[0]], False))
         if form in ('block', 'all'):
-            expect.append(('-', [to.columns[0], oc], [tp.columns[0], tp.columns[1]], False))
+            expect.append(('-', [oc, to.columns[0]], [tp.columns[0], tp.columns[1]], False))
         if len(db.refs) != len(expect):
             return 'wrong number of references'
         for r, (typ, c1, c2, inl) in zip(db.refs, expect):
